@@ -59,6 +59,9 @@ def concretize(prop, ob):
         out.append(("race_store_delete", {}))
     if "W-PidRef" in name or name.endswith("one-guard/PidRef"):
         out.append(("race_tag_delete", {}))
+    if name.startswith("main/store_object/arg:object_size"):
+        out.append(("client_cli", {"argv": ["-storeobject", "-pid=cli-pid", "-path={data}",
+                                            "-obj_size={size}"], "expect_bound": "cli-pid"}))
     if "C-check-then-act/entry-existence" in name:
         out.append(("race_delete_all_metadata", {}))
     if name.startswith("fault["):
